@@ -1515,7 +1515,8 @@ fn run_c17(args: &Args) -> Report {
     let mut r = Rng::derive(args.seed, args.shard as u64, 17);
     let t0 = Instant::now();
     let mut n = 0u64;
-    const MODS: &[&str] = &["alpha", "beta", "shared", "util/helpers", "deep/er/mod", "core", "app/main", "zeta"];
+    // directories below src/ and test/ may themselves be called `test` or `src` (`src/test/helpers.gleam` is module `test/helpers`)
+    const MODS: &[&str] = &["alpha", "beta", "shared", "util/helpers", "deep/er/mod", "core", "app/main", "zeta", "test/helpers", "src/inner"];
     while t0.elapsed().as_secs_f64() < args.budget_s {
         let Some(case_seed) = args.next_case(&mut r) else { break };
         let mut cr = Rng::new(case_seed);
